@@ -152,15 +152,13 @@ pub const MEM_C0: u64 = 64 << 10;
 pub const CPU_ABS_NS: u64 = 2_000_000;
 pub const CPU_PER_UNIT_NS: u64 = 1_000;
 pub const CPU_C0_NS: u64 = 500_000;
+/// a handler is named in a `work-cpu` violation of its chain only if it contributes at least this much
+pub const CPU_OWN_FLOOR_NS: u64 = 500_000;
 pub const RATIO: u64 = 64;
 
 /// `n` = encoded frame bytes + entries of state already held
 pub fn mem_excess(cost: u64, bottom: u64, n: u64) -> bool {
     cost >= MEM_ABS && cost > MEM_PER_UNIT * n + MEM_C0 && cost >= RATIO * bottom.max(1)
-}
-
-pub fn cpu_excess(cost_ns: u64, bottom_ns: u64, n: u64) -> bool {
-    cost_ns >= CPU_ABS_NS && cost_ns > CPU_PER_UNIT_NS * n + CPU_C0_NS && cost_ns >= RATIO * bottom_ns.max(1_000)
 }
 
 // CPU clock of another thread (watchdog) -------------------------------------------------------------
